@@ -13,7 +13,7 @@ PROP = "C04"
 META = {
  "engine": "P-pattern-algebra",
  "text": "Coq theorems (Props/C04.v, closed under the global context) prove on the executable model of the pattern classes (Pat/Step.v: __init__, __next__, reset() incl. Pattern.reset's walk over vars(self)): for the reset fragment rpat (constants, sequences of scalars, series, ranges, geometric series, impulses, the 15 operators, &, abs, int, references, stutter, counter, pad, pad-to-multiple, skip-if, loop, ping-pong, reverse, subsequence, collapse, no-repeats, changed, diff, wrap, reset-on-trigger over a counter-state class, nested to any depth, parameters scalars or patterns of the fragment; proved closed under next(): C04_fragment_closed) reset() after ANY number of next() calls - including calls that raised StopIteration - yields exactly the state reset() yields on the untouched object, which for a newly constructed object is the object itself; hence the outputs after reset() are those of a new instance, repeated resets change nothing, and all() leaves the object rewound. The model is tied to the repository on every run by scripts next^k; reset; next^n; reset; next^n; all(m); next^n with k at 0, 1, block boundaries, exhaustion and beyond, on random expressions over every modelled class, compared inside Coq; an implementation-only oracle compares every post-reset output with a freshly constructed instance. Seedable and configurable classes (Pat/Seeded.v: constructors that draw, seed() overrides, __next__ that resets itself, configuration methods called at any time; generator as data): for every class meeting the contract `rewinds` - proved for PArpeggiator RANDOM, PRandomImpulseSequence with every(), all machines of Pat/Chance.v - and every history over next/reset/seed/configuration calls, reset() leaves exactly the newly constructed instance with the seed in force and the configuration calls made (C04_reset_is_fresh_configured_instance), and a freshly seeded instance consumed straight away is what reset() reproduces and what any other fresh instance with that seed is (C04_fresh_seeded_is_what_reset_reproduces, C04_seeded_instances_agree); PRef.set_pattern starts a new history (C04_reset_after_set_pattern). Tied to the repository by the seeded/configured stream: every PStochasticPattern subclass of the live package, seeded, configured through every / set_pattern / item assignment in the set-up and in mid-history, alone and nested, every clean segment compared with a newly constructed identically seeded and configured instance, recorded draws replayed through the model inside Coq.",
- "note": "Open (C04_reset_erases_step_leaf_partial): PReset over nested patterns, PRound PIndexOf PArrayIndex PDict PDictKey PConcatenate and list-/tuple-/dict-valued parameters are covered by the correspondence and the oracle, not by the theorem. Trusted: Coq kernel + VM; the harness. Stochastic classes: ranges, isolation and the generator contract are C11; their reset()/seed() is in Pat/Seeded.v (PArpeggiator RANDOM, PRandomImpulseSequence, the machines of Pat/Chance.v by embedding), the other seedable classes (PRandomExponential, regular PCoin/PSkip, pattern-valued parameters) by the oracle only. Configuration methods that draw (PMarkov.randomize) and PArpeggiator.notes= are not covered. Deterministic classes outside the model (PEuclidean PArpeggiator PNormalise PTri PSaw PPermut) are judged by the oracle only. Patterns stored inside tuples are not reached by Pattern.reset (the model transcribes that); the generator puts tuples of scalars only.",
+ "note": "PReset over nested patterns, PRound PIndexOf PArrayIndex PDict PDictKey PConcatenate, PSequence with pattern items and list-/tuple-/dict-valued parameters are proved on the extended fragment xpat (Props/C04More.v: C04_more_reset_erases_step, C04_more_reset_erases_reset). Known finding C04-reset-tuples: reset() does not reach a pattern stored inside a tuple (the model transcribes that: C04_more_tuple_pattern_not_rewound; the tuple stratum generates such objects and attributes a deviation to the finding only if the proposed repair removes it). Trusted: Coq kernel + VM; the harness. Stochastic classes: ranges, isolation and the generator contract are C11; their reset()/seed() is in Pat/Seeded.v (PArpeggiator RANDOM, PRandomImpulseSequence, the machines of Pat/Chance.v by embedding), the other seedable classes (PRandomExponential, regular PCoin/PSkip, pattern-valued parameters) by the oracle only. Configuration methods that draw (PMarkov.randomize) and PArpeggiator.notes= are not covered. Deterministic classes outside the model (PEuclidean PArpeggiator PNormalise PTri PSaw PPermut) are judged by the oracle only. The main stream puts tuples of scalars only; patterns inside tuples are the business of the tuple stratum.",
 }
 
 REFN = 26
